@@ -98,6 +98,12 @@ func computeGuardedBy(P *Program) {
 
 func globalKey(g *ssa.Global) string { return g.Pkg.Pkg.Name() + "." + g.Name() }
 
+// isInitBody: fn is a package initialiser itself; a closure it creates (the
+// New function of a pool, say) runs later and is not part of initialisation.
+func isInitBody(fn *ssa.Function) bool {
+	return fn.Parent() == nil && (fn.Name() == "init" || strings.HasPrefix(fn.Name(), "init#"))
+}
+
 func isInitFunc(fn *ssa.Function) bool {
 	for f := fn; f != nil; f = f.Parent() {
 		if f.Name() == "init" || strings.HasPrefix(f.Name(), "init#") {
@@ -386,7 +392,7 @@ func isSyncType(t types.Type) bool {
 func globalWrites(P *Program, fns []*ssa.Function) map[*ssa.Global][]ssa.Instruction {
 	out := map[*ssa.Global][]ssa.Instruction{}
 	for _, fn := range fns {
-		if isInitFunc(fn) {
+		if isInitBody(fn) {
 			continue
 		}
 		for _, b := range fn.Blocks {
@@ -440,6 +446,17 @@ func ruleLKGlobal(c *Ctx) {
 		}
 		c.OK(key, P.pos(g.Pos()), "written only by the package initialiser")
 	}
+	// aliasing: the slice or map a package-level variable holds must not be installed elsewhere (a field, a return
+	// value, an append): writes through the copy would be unsynchronised writes to the shared storage
+	esc := globalAliasEscapes(P, P.ModuleFuncs())
+	for _, g := range moduleGlobals(P) {
+		if _, guarded := guardedBy[globalKey(g)]; guarded {
+			continue
+		}
+		if es := esc[g]; len(es) > 0 {
+			c.Bad("global/"+globalKey(g)+"/alias", P.pos(es[0].Pos()), fmt.Sprintf("the slice or map held by package-level variable %s is handed on (%s in %s): whatever is written through that copy is shared, unsynchronised, by everything that got it", globalKey(g), strings.TrimSpace(es[0].String()), es[0].Parent().Name()))
+		}
+	}
 	// fixture: the rule must see a write outside init in a tiny positive example
 	fx := buildFixture(`package fx
 var cache map[int]int
@@ -447,6 +464,11 @@ var arr [4]int
 func put(k int) { cache[k] = k }
 func set(i int) { arr[i] = 1 }
 func init() { cache = map[int]int{} }
+type bank struct{ types []int }
+var base = []int{1, 2, 3}
+func newBank() *bank { return &bank{types: base} }
+func grow(x int) []int { return append(base, x) }
+func sum() int { t := 0; for _, v := range base { t += v }; return t + len(base) + base[0] }
 `)
 	if fx == nil {
 		c.Unk("fixture/LK-GLOBAL", "-", "fixture package did not build")
@@ -462,6 +484,18 @@ func init() { cache = map[int]int{} }
 	n := 0
 	for _, ws := range fw {
 		n += len(ws)
+	}
+	fa := 0
+	faWhat := ""
+	for _, es := range globalAliasEscapes(P, ffns) {
+		fa += len(es)
+		for _, e := range es {
+			faWhat += e.Parent().Name() + ":" + strings.TrimSpace(e.String()) + "; "
+		}
+	}
+	oa := c.ob(Discharged, "fixture/LK-GLOBAL/alias", "-", fmt.Sprintf("positive fixture: %d escapes of a package-level slice found in the fixture (expected 3: %s)", fa, faWhat), false)
+	if fa != 3 {
+		oa.Verdict, oa.VerdictS = Undecided, "undecided"
 	}
 	o := c.ob(Discharged, "fixture/LK-GLOBAL", "-", fmt.Sprintf("positive fixture: %d writes outside init found in the fixture (expected 2)", n), false)
 	if n != 2 {
@@ -723,7 +757,23 @@ func calledOnlyFrom(P *Program, fn *ssa.Function, allowed map[*ssa.Function]bool
 						return false
 					}
 					if !allowed[g] {
-						return false
+						// an intermediate helper that only hands the result on, itself called only from the owners
+						cl := in.(*ssa.Call)
+						passes := true
+						for _, r := range referrersOf(cl) {
+							switch x := r.(type) {
+							case *ssa.DebugRef, *ssa.Return:
+							case *ssa.Extract:
+								if !onlyReturnedOrTested(x) {
+									passes = false
+								}
+							default:
+								passes = false
+							}
+						}
+						if !passes || !calledOnlyFrom(P, g, allowed, depth+1) {
+							return false
+						}
 					}
 					n++
 				}
@@ -731,4 +781,131 @@ func calledOnlyFrom(P *Program, fn *ssa.Function, allowed map[*ssa.Function]bool
 		}
 	}
 	return n > 0
+}
+
+// onlyReturnedOrTested: the value is only returned, compared or passed through phis.
+func onlyReturnedOrTested(v ssa.Value) bool {
+	seen := map[ssa.Value]bool{}
+	var rec func(v ssa.Value) bool
+	rec = func(v ssa.Value) bool {
+		if seen[v] {
+			return true
+		}
+		seen[v] = true
+		for _, r := range referrersOf(v) {
+			switch x := r.(type) {
+			case *ssa.DebugRef, *ssa.Return:
+			case *ssa.BinOp:
+				if x.Op != token.EQL && x.Op != token.NEQ {
+					return false
+				}
+			case *ssa.Phi:
+				if !rec(x) {
+					return false
+				}
+			default:
+				return false
+			}
+		}
+		return true
+	}
+	return rec(v)
+}
+
+// globalAliasEscapes: outside package initialisers, the places where the
+// slice or map loaded from (a field of) a module package-level variable is
+// stored somewhere other than a local, returned, appended to, handed to a
+// module function, or written through.
+func globalAliasEscapes(P *Program, fns []*ssa.Function) map[*ssa.Global][]ssa.Instruction {
+	out := map[*ssa.Global][]ssa.Instruction{}
+	for _, fn := range fns {
+		if isInitBody(fn) {
+			continue
+		}
+		for _, b := range fn.Blocks {
+			for _, in := range b.Instrs {
+				ld, ok := in.(*ssa.UnOp)
+				if !ok || ld.Op != token.MUL {
+					continue
+				}
+				switch ld.Type().Underlying().(type) {
+				case *types.Slice, *types.Map:
+				default:
+					continue
+				}
+				// the address must lie inside the variable itself (no dereference on the way)
+				addr := ld.X
+				for {
+					if fa, ok := addr.(*ssa.FieldAddr); ok {
+						addr = fa.X
+						continue
+					}
+					if ia, ok := addr.(*ssa.IndexAddr); ok {
+						if _, isArr := ia.X.Type().Underlying().(*types.Pointer); isArr {
+							addr = ia.X
+							continue
+						}
+					}
+					break
+				}
+				g, ok := addr.(*ssa.Global)
+				if !ok || g.Pkg == nil || isSyncType(g.Type().(*types.Pointer).Elem()) {
+					continue
+				}
+				seen := map[ssa.Value]bool{}
+				var walk func(v ssa.Value)
+				walk = func(v ssa.Value) {
+					if seen[v] {
+						return
+					}
+					seen[v] = true
+					for _, r := range referrersOf(v) {
+						switch x := r.(type) {
+						case *ssa.Store:
+							if x.Val == v {
+								if a, isA := x.Addr.(*ssa.Alloc); isA && !a.Heap {
+									continue
+								}
+								out[g] = append(out[g], r)
+							}
+						case *ssa.Return:
+							out[g] = append(out[g], r)
+						case *ssa.MapUpdate:
+							if x.Map == v {
+								out[g] = append(out[g], r)
+							}
+						case *ssa.Slice:
+							walk(x)
+						case *ssa.Phi:
+							walk(x)
+						case *ssa.ChangeType:
+							walk(x)
+						case *ssa.MakeInterface:
+							walk(x)
+						case *ssa.IndexAddr:
+							for _, rr := range referrersOf(x) {
+								if st, isSt := rr.(*ssa.Store); isSt {
+									if root, _ := rootOfAddr(st.Addr); root == ssa.Value(g) || st.Addr == ssa.Value(x) {
+										out[g] = append(out[g], rr)
+									}
+								}
+							}
+						case *ssa.Call:
+							if bi, isB := x.Call.Value.(*ssa.Builtin); isB {
+								if bi.Name() == "append" && len(x.Call.Args) > 0 && x.Call.Args[0] == v {
+									out[g] = append(out[g], r)
+								}
+								continue
+							}
+							if callee := x.Call.StaticCallee(); callee != nil && P.isModuleFunc(callee) && callee.Blocks != nil {
+								out[g] = append(out[g], r)
+							}
+						}
+					}
+				}
+				walk(ld)
+			}
+		}
+	}
+	return out
 }
